@@ -99,7 +99,7 @@ def instCtors (decls : Decls) (n : Nat) (args : ATys) : Option (Bool × List (Na
   match decls[n]? with
   | none => none
   | some dt =>
-    some (dt.asList, (ctorTable 0 dt.ctors).map (fun (i, fs) => (i, fs.map (ATy.subst args.toList))))
+    some (dt.asList, (ctorTable 0 dt.ctors).map (fun c => (c.1, c.2.map (ATy.subst args.toList))))
 
 -- ------------------------------------------------------------------ schemas
 /-- `Declaration<T>`; a reference is the (closed) type it was registered for —
@@ -160,7 +160,7 @@ def schemaOf (decls : Decls) : ATy → Option Schema
     match instCtors decls n args with
     | none => none
     | some (true, [(_, fs)]) => some (.data (.tuple (refs fs)))
-    | some (_, cs) => some (.data (.anyOf (cs.map (fun (i, fs) => (i, refs fs)))))
+    | some (_, cs) => some (.data (.anyOf (cs.map (fun c => (c.1, refs c.2)))))
   | .var _ => none
 
 /-- the types `do_from_type` is called on while building the schema of `T` -/
